@@ -212,27 +212,37 @@ fn same_cyclic_dir(got: &LineString<I>, pts: &[P; 4], reversed: bool) -> bool {
     }
 }
 
-/// triangle shell + triangle hole, each of symbolic direction; both requested directions
-pub fn orient_poly<S: Src>(s: &mut S, n: i8) {
+/// hole-less triangle polygon of symbolic direction, both requested directions (orient() on
+/// polygons WITH holes collects the re-wound holes into a fresh Vec: not encodable, see DESIGN)
+pub fn orient_shell<S: Src>(s: &mut S, n: i8) {
     let (a, b, c) = (gp(s, n), gp(s, n), gp(s, n));
-    let (d, e, f_) = (gp(s, n), gp(s, n), gp(s, n));
-    vassume!(orient(a, b, c) != 0 && orient(d, e, f_) != 0);
-    let (ext, hole) = ([a, b, c, a], [d, e, f_, d]);
-    let p = poly_i(&ext, &[&hole]);
+    vassume!(orient(a, b, c) != 0);
+    let ext = [a, b, c, a];
+    let p = poly_i(&ext, &[]);
     let reversed = s.bool();
     let o = p.orient(if reversed { Direction::Reversed } else { Direction::Default });
     let ext_ccw = det(a, b, c) > 0;
-    let hole_ccw = det(d, e, f_) > 0;
-    // Default: exterior ccw, holes cw.  Reversed: the opposite.
     let ext_must_flip = ext_ccw == reversed;
-    let hole_must_flip = hole_ccw != reversed;
-    assert!(o.interiors().len() == 1, "orient changed the number of holes");
+    assert!(o.interiors().is_empty(), "orient invented a hole");
     assert!(same_cyclic_dir(o.exterior(), &ext, ext_must_flip), "orient: exterior is not the input ring in the requested direction");
-    assert!(same_cyclic_dir(&o.interiors()[0], &hole, hole_must_flip), "orient: hole is not the input ring in the requested direction");
-    vcover!(!ext_must_flip && hole_must_flip, "exterior already oriented, hole needs reversing");
-    vcover!(ext_must_flip && !hole_must_flip, "hole already oriented, exterior needs reversing");
-    vcover!(reversed, "Direction::Reversed");
+    vcover!(ext_must_flip, "exterior needs reversing");
+    vcover!(reversed && !ext_must_flip, "Direction::Reversed, exterior already clockwise");
     core::mem::forget(p);
+    core::mem::forget(o);
+}
+
+/// the ring-level operation orient() maps over every ring: clone_to_winding_order
+pub fn ring_rewind<S: Src>(s: &mut S, n: i8) {
+    let (d, e, f_) = (gp(s, n), gp(s, n), gp(s, n));
+    vassume!(orient(d, e, f_) != 0);
+    let hole = [d, e, f_, d];
+    let r = ls_i(&hole);
+    let want_cw = s.bool();
+    let o = r.clone_to_winding_order(if want_cw { WindingOrder::Clockwise } else { WindingOrder::CounterClockwise });
+    let is_ccw = det(d, e, f_) > 0;
+    assert!(same_cyclic_dir(&o, &hole, is_ccw == want_cw), "clone_to_winding_order: result is not the input ring in the requested direction");
+    vcover!(is_ccw == want_cw, "ring needs reversing");
+    core::mem::forget(r);
     core::mem::forget(o);
 }
 
@@ -247,11 +257,12 @@ harnesses! {
     #[kani::unwind(7)] fn c05_rect_triangle_area_g2(s) { rect_triangle_area(s, 2) }
     #[kani::unwind(6)] fn c05_multipolygon_area_g1(s) { collection_area(s, 1) }
     #[kani::unwind(6)] fn c05_geometry_collection_area_g2(s) { geometry_collection_area(s, 2) }
+    #[kani::unwind(7)] fn c05_winding3_g2(s) { winding3(s, 2) }
     #[kani::unwind(7)] fn c05_winding3_g3(s) { winding3(s, 3) }
     #[kani::unwind(7)] fn c05_winding4_g2(s) { winding4(s, 2) }
     #[kani::unwind(7)] fn c05_winding_degenerate(s) { winding_degenerate(s, 3) }
-    #[kani::unwind(7)] fn c05_orient_poly_g1(s) { orient_poly(s, 1) }
-    #[kani::unwind(7)] fn c05_orient_poly_g2(s) { orient_poly(s, 2) }
+    #[kani::unwind(7)] fn c05_orient_shell_g2(s) { orient_shell(s, 2) }
+    #[kani::unwind(7)] fn c05_ring_rewind_g2(s) { ring_rewind(s, 2) }
     #[kani::unwind(6)] fn c05_sanity_must_fail(s) {
         ring_area_int3(s, 2, 0);
         assert!(false, "sanity twin reached its end");
